@@ -81,7 +81,8 @@ def run(ctx):
     bases += [job(D, m, seed, extra={"gp_warnings": True, "max_fun_evals": 45 if m == "det" else 75}) for D in (1,) for m in ("det", "spec")]
     # options that steer the retry logic itself: no noise nudge, slice-sampled restart points, forced double refit
     bases += [job(D, m, seed, extra=dict(o, max_fun_evals=45 if m == "det" else 75)) for D in (1, 2) for m in ("det", "spec")
-              for o in ({"noise_nudge": None}, {"use_slice_sampler": True}, {"double_refit": True}, {"noise_nudge": [1.0]}) if not (q and D == 2 and m == "spec")]
+              for o in ({"noise_nudge": None}, {"use_slice_sampler": True}, {"double_refit": True}, {"noise_nudge": [1.0]},
+                        {"use_slice_sampler": True, "noise_nudge": [5.0, 1.0]}, {"use_slice_sampler": True, "noise_nudge": [3.0, 1.0]}) if not (q and D == 2 and m == "spec")]
     jobs = []
     for b, r in zip(bases, pmap(execute, bases)):
         if r["exc"] is not None:
